@@ -32,12 +32,12 @@ Definition table : option_table := {|
   ];
   t_common := [
     {| a_sub := ""; a_flags := []; a_dest := "jugfile"; a_action := AStore; a_nargs := NOpt; a_default := None; a_type := TStr; a_required := false; a_mutex := None |};
-    {| a_sub := ""; a_flags := ["--aggressive-unload"]; a_dest := "aggressive_unload"; a_action := AStoreTrue; a_nargs := NOne; a_default := None; a_type := TStr; a_required := false; a_mutex := None |};
+    {| a_sub := ""; a_flags := ["--aggressive-unload"]; a_dest := "aggressive_unload"; a_action := (AStoreConst (VBool true)); a_nargs := NOne; a_default := None; a_type := TStr; a_required := false; a_mutex := None |};
     {| a_sub := ""; a_flags := ["--jugdir"]; a_dest := "jugdir"; a_action := AStore; a_nargs := NOne; a_default := None; a_type := TStr; a_required := false; a_mutex := None |};
     {| a_sub := ""; a_flags := ["--verbose"]; a_dest := "verbose"; a_action := AStore; a_nargs := NOne; a_default := None; a_type := TStr; a_required := false; a_mutex := None |};
-    {| a_sub := ""; a_flags := ["--short"]; a_dest := "short"; a_action := AStoreTrue; a_nargs := NOne; a_default := None; a_type := TStr; a_required := false; a_mutex := None |};
-    {| a_sub := ""; a_flags := ["--pdb"]; a_dest := "pdb"; a_action := AStoreTrue; a_nargs := NOne; a_default := None; a_type := TStr; a_required := false; a_mutex := None |};
-    {| a_sub := ""; a_flags := ["--debug"]; a_dest := "debug"; a_action := AStoreTrue; a_nargs := NOne; a_default := None; a_type := TStr; a_required := false; a_mutex := None |};
+    {| a_sub := ""; a_flags := ["--short"]; a_dest := "short"; a_action := (AStoreConst (VBool true)); a_nargs := NOne; a_default := None; a_type := TStr; a_required := false; a_mutex := None |};
+    {| a_sub := ""; a_flags := ["--pdb"]; a_dest := "pdb"; a_action := (AStoreConst (VBool true)); a_nargs := NOne; a_default := None; a_type := TStr; a_required := false; a_mutex := None |};
+    {| a_sub := ""; a_flags := ["--debug"]; a_dest := "debug"; a_action := (AStoreConst (VBool true)); a_nargs := NOne; a_default := None; a_type := TStr; a_required := false; a_mutex := None |};
     {| a_sub := ""; a_flags := ["--will-cite"]; a_dest := "will_cite"; a_action := (AStoreConst (VBool true)); a_nargs := NOne; a_default := None; a_type := TStr; a_required := false; a_mutex := None |};
     {| a_sub := ""; a_flags := []; a_dest := "user_args"; a_action := AStore; a_nargs := NStar; a_default := (Some (VList [])); a_type := TStr; a_required := false; a_mutex := None |}
   ];
@@ -73,6 +73,6 @@ Definition table : option_table := {|
     ("webstatus_port", (VStr "8080"));
     ("webstatus_ip", (VStr "localhost"))
   ];
-  t_coerce := CoerceByType;
+  t_coerce := CoerceBoolHelper;
   t_false_strings := [""; "0"; "false"; "off"]
 |}.
